@@ -185,6 +185,16 @@ func (t *InProc) RoundTrip(req *http.Request) (*http.Response, error) {
 	if err := req.Context().Err(); err != nil {
 		return nil, err // net/http does not send a request whose context is already done
 	}
+	// net/http's transport refuses to send header fields that are not valid on the wire
+	for k, vs := range req.Header {
+		for _, v := range vs {
+			for i := 0; i < len(v); i++ {
+				if b := v[i]; (b < 0x20 && b != '\t') || b == 0x7f {
+					return nil, fmt.Errorf("net/http: invalid header field value for %q", k)
+				}
+			}
+		}
+	}
 	if t.Before != nil {
 		if resp, err := t.Before(req, n); resp != nil || err != nil {
 			if resp != nil && resp.Request == nil {
